@@ -391,5 +391,9 @@ void PSG::Mix(Sample* dest, int nsamples)
 //	テーブル
 //
 uint	PSG::noisetable[noisetablesize] = { 0, };
-int		PSG::EmitTable[0x20] = { -1, };
-uint	PSG::enveloptable[16][64] = { {0, } };
+
+// The noise table is shared and constant: build it at load time, before threads can race on the lazy initialisation
+static struct PSGTablesInit
+{
+	PSGTablesInit() { PSG first; (void)first; }
+} s_psgTablesInit;
